@@ -13,6 +13,7 @@ import re
 import rsx
 import r7fmt
 from rsx import AnchorLost
+import constfold
 
 VERIF = os.path.dirname(os.path.dirname(os.path.abspath(__file__)))
 
@@ -125,6 +126,8 @@ def rewrite_body(s):
     s2 = re.sub(r'(?<![A-Za-z0-9_:])(crate|fpdec_core|fpdec_macros)::(binops::\w+::|\w+::)?(?=[A-Za-z_])',
                 lambda m: _flat(m), s2)
     s = s2
+    # R16: constant folding of pure integer-literal expressions (lib/constfold.py)
+    s = constfold.fold(s, _count)
 
     # R14 (feature rkyv): `rkyv::Archived<T>` is `T` for the primitive field types of ArchivedDecimal on a
     # little-endian target without rkyv's archive_le/archive_be features (assumption, listed); the
@@ -230,7 +233,49 @@ def rewrite_map_closure(s):
     s = _rewrite_closure_call(s, 'map', lambda recv, pat, body: '(match %s { Some(%s) => Some(%s), None => None })' % (recv, pat, body))
     # Result::map_err with a closure -> its definition as a match
     s = _rewrite_closure_call(s, 'map_err', lambda recv, pat, body: '(match %s { Ok(v__) => Ok(v__), Err(%s) => Err(%s) })' % (recv, pat, body))
+    s = _rewrite_map_or(s)
     return s
+
+
+def _rewrite_map_or(s):
+    """R13: `RECV.map_or(DEFAULT, |x| BODY)` -> `{ let r__ = RECV; let d__ = DEFAULT; match r__ { Some(x) => BODY,
+    None => d__ } }` (the definition of Option::map_or; receiver and the eagerly evaluated default keep their order)"""
+    while True:
+        m = re.search(r'\.map_or\(', s)
+        if not m:
+            return s
+        op = m.end() - 1
+        end = rsx.match_close(s, op)
+        args = _split_args(s[op + 1:end - 1])
+        if len(args) != 2:
+            raise AnchorLost('R13: map_or with %d arguments' % len(args))
+        mc = re.match(r'\s*\|([a-z_][a-z0-9_]*)\|(.*)$', args[1], re.S)
+        if not mc:
+            raise AnchorLost('R13: map_or without a closure literal')
+        i = m.start() - 1
+        depth = 0
+        while i >= 0:
+            ch = s[i]
+            if ch in ')]}':
+                depth += 1
+            elif ch in '([{':
+                if depth == 0:
+                    break
+                depth -= 1
+            elif ch in ';=,' and depth == 0:
+                break
+            elif ch == '>' and i > 0 and s[i - 1] == '=' and depth == 0:
+                break
+            i -= 1
+        recv = s[i + 1:m.start()]
+        lead = recv[:len(recv) - len(recv.lstrip())]
+        recv = recv.strip()
+        if not recv:
+            raise AnchorLost('R13: empty receiver for .map_or(closure)')
+        _count('R13.map_or_closure')
+        repl = '%s{ let r__ = %s; let d__ = %s; match r__ { Some(%s) => %s, None => d__ } }' % (
+            lead, recv, args[0].strip(), mc.group(1), mc.group(2).strip())
+        s = s[:i + 1] + repl + s[end:]
 
 
 def _rewrite_closure_call(s, method, build):
@@ -745,6 +790,8 @@ class Unit:
     def __init__(self, name, specs=(), uses=()):
         self.name = name
         self.specs = list(specs)
+        if 'std_from_int.rs' not in self.specs:
+            self.specs.append('std_from_int.rs')
         self.uses = list(uses)
         self.entries = []
         self.crate_traits = set()
